@@ -406,7 +406,7 @@ fn protocol<C: Suite>(ctx: &mut Ctx, entry: &str) {
     match entry {
         "sign" => {
             for (pn, pkg) in hostile_packages::<C>(ctx, &w, &mut p) {
-                guarded(ctx, "sign", pn.as_bytes(), || frost_core::round2::sign(&pkg, &nonces, &kp).is_ok());
+                guarded(ctx, "sign", pn.as_bytes(), || C::api_sign(&pkg, &nonces, &kp).is_ok());
                 calls += 1;
                 ctx.class(format!("sign/{pn}"));
             }
@@ -468,7 +468,7 @@ fn protocol<C: Suite>(ctx: &mut Ctx, entry: &str) {
                                 guarded(ctx, "SecretShare::verify", label.as_bytes(), || sh.verify().is_ok());
                             }
                         } else {
-                            guarded(ctx, "refresh_share", label.as_bytes(), || refresh::refresh_share::<C>(sh.clone(), &kp).is_ok());
+                            guarded(ctx, "refresh_share", label.as_bytes(), || C::api_refresh_share(sh.clone(), &kp).is_ok());
                         }
                         calls += 1;
                     }
@@ -539,7 +539,7 @@ fn protocol<C: Suite>(ctx: &mut Ctx, entry: &str) {
             r2maps.push(("oversized".into(), m));
             if entry == "dkg_part2" {
                 for (n1, m1) in &r1maps {
-                    guarded(ctx, "dkg::part2", n1.as_bytes(), || dkg::part2::<C>(sec1.clone(), m1).is_ok());
+                    guarded(ctx, "dkg::part2", n1.as_bytes(), || C::api_dkg_part2(sec1.clone(), m1).is_ok());
                     calls += 1;
                     ctx.class(format!("dkg_part2/{n1}"));
                 }
@@ -550,7 +550,7 @@ fn protocol<C: Suite>(ctx: &mut Ctx, entry: &str) {
                             continue;
                         }
                         let label = format!("{n1}|{n2}");
-                        guarded(ctx, "dkg::part3", label.as_bytes(), || dkg::part3::<C>(&sec2, m1, m2).is_ok());
+                        guarded(ctx, "dkg::part3", label.as_bytes(), || C::api_dkg_part3(&sec2, m1, m2).is_ok());
                         calls += 1;
                     }
                     ctx.class(format!("dkg_part3/{n1}"));
@@ -560,11 +560,11 @@ fn protocol<C: Suite>(ctx: &mut Ctx, entry: &str) {
                 let n = w.grp.n;
                 let t = w.grp.t;
                 let mut rng = ctx.rng("refresh");
-                if let Ok((rs1, _)) = refresh::refresh_dkg_part1::<C, _>(me, n, t, &mut rng) {
+                if let Ok((rs1, _)) = C::api_refresh_dkg_part1(me, n, t, &mut rng) {
                     let mut honest_r1 = BTreeMap::new();
                     let mut secs = BTreeMap::new();
                     for id in w.grp.ids.iter().filter(|i| **i != me) {
-                        if let Ok((s, pk)) = refresh::refresh_dkg_part1::<C, _>(*id, n, t, &mut rng) {
+                        if let Ok((s, pk)) = C::api_refresh_dkg_part1(*id, n, t, &mut rng) {
                             honest_r1.insert(*id, pk);
                             secs.insert(*id, s);
                         }
@@ -572,7 +572,7 @@ fn protocol<C: Suite>(ctx: &mut Ctx, entry: &str) {
                     let mut maps = r1maps.clone();
                     maps.push(("honest-refresh".into(), honest_r1.clone()));
                     for (n1, m1) in &maps {
-                        let r = guarded(ctx, "refresh_dkg_part2", n1.as_bytes(), || refresh::refresh_dkg_part2::<C>(rs1.clone(), m1));
+                        let r = guarded(ctx, "refresh_dkg_part2", n1.as_bytes(), || C::api_refresh_dkg_part2(rs1.clone(), m1));
                         calls += 1;
                         let sec2r = match r {
                             Some(Ok((s2, _))) => s2,
@@ -581,7 +581,7 @@ fn protocol<C: Suite>(ctx: &mut Ctx, entry: &str) {
                         for (n2, m2) in &r2maps {
                             for (kn, pkp) in hostile_pkps::<C>(ctx, &w).iter().take(if ctx.quick() { 5 } else { 20 }) {
                                 let label = format!("{n1}|{n2}|{kn}");
-                                guarded(ctx, "refresh_dkg_shares", label.as_bytes(), || refresh::refresh_dkg_shares::<C>(&sec2r, m1, m2, pkp.clone(), kp.clone()).is_ok());
+                                guarded(ctx, "refresh_dkg_shares", label.as_bytes(), || C::api_refresh_dkg_shares(&sec2r, m1, m2, pkp.clone(), kp.clone()).is_ok());
                                 calls += 1;
                             }
                         }
@@ -605,21 +605,21 @@ fn protocol<C: Suite>(ctx: &mut Ctx, entry: &str) {
             for (ln, l) in &lists {
                 for (pn, part) in [("other", ids[ids.len() - 1]), ("caller-itself", me), ("outsider", w.outsider)] {
                     let label = format!("{ln}|{pn}");
-                    guarded(ctx, "repair_share_part1", label.as_bytes(), || repairable::repair_share_part1::<C, _>(l, &kp, &mut rng, part).is_ok());
+                    guarded(ctx, "repair_share_part1", label.as_bytes(), || C::api_repair_part1(l, &kp, &mut rng, part).is_ok());
                     calls += 1;
                 }
                 ctx.class(format!("repair/part1/{ln}"));
             }
             let d0 = Delta::<C>::new(one::<C>());
             for (dn, ds) in [("empty", vec![]), ("one", vec![d0]), ("many", vec![d0; 5000])] {
-                guarded(ctx, "repair_share_part2", dn.as_bytes(), || repairable::repair_share_part2::<C>(&ds));
+                guarded(ctx, "repair_share_part2", dn.as_bytes(), || C::api_repair_part2(&ds));
                 calls += 1;
             }
             let s0 = Sigma::<C>::new(one::<C>());
             for (sn, ss) in [("empty", vec![]), ("one", vec![s0]), ("many", vec![s0; 5000])] {
                 for (kn, pkp) in hostile_pkps::<C>(ctx, &w) {
                     let label = format!("{sn}|{kn}");
-                    guarded(ctx, "repair_share_part3", label.as_bytes(), || repairable::repair_share_part3::<C>(&ss, w.outsider, &pkp).is_ok());
+                    guarded(ctx, "repair_share_part3", label.as_bytes(), || C::api_repair_part3(&ss, w.outsider, &pkp).is_ok());
                     calls += 1;
                 }
                 ctx.class(format!("repair/part3/{sn}"));
@@ -635,7 +635,7 @@ fn protocol<C: Suite>(ctx: &mut Ctx, entry: &str) {
             lists.push(("mixed-groups".into(), vec![kps[0].clone(), w.other.kps.values().nth(1).unwrap().clone()]));
             for (ln, l) in lists {
                 let l: Vec<KeyPackage<C>> = l.into_iter().filter_map(|k| launder::<C, _>(ctx, k)).collect();
-                guarded(ctx, "reconstruct", ln.as_bytes(), || frost_core::keys::reconstruct::<C>(&l).is_ok());
+                guarded(ctx, "reconstruct", ln.as_bytes(), || C::api_reconstruct(&l).is_ok());
                 calls += 1;
                 ctx.class(format!("reconstruct/{ln}"));
             }
@@ -677,7 +677,7 @@ fn protocol<C: Suite>(ctx: &mut Ctx, entry: &str) {
             guarded(ctx, "PublicKeyPackage::from_dkg_commitments", b"empty", || PublicKeyPackage::<C>::from_dkg_commitments(&empty).is_ok());
         }
         "verify" | "batch" => {
-            let sig = frost_core::aggregate(&w.sess.pkg, &w.sess.shares, &w.grp.pkp).ok();
+            let sig = C::api_aggregate(&w.sess.pkg, &w.sess.shares, &w.grp.pkp).ok();
             let Some(sig) = sig else { return };
             let sigs = [sig, Signature::<C>::new(*sig.R(), zero::<C>()), Signature::<C>::new(vk.to_element(), *sig.z()), Signature::<C>::new(ident::<C>() - *sig.R(), neg::<C>(*sig.z()))];
             let vks = [vk, *w.other.pkp.verifying_key(), VerifyingKey::<C>::new(*sig.R())];
@@ -823,7 +823,7 @@ fn consume<C: Suite>(ctx: &mut Ctx) {
     let sshares = survivors::<C, _>(ctx, &w.sess.shares[&me], per / 4, &mut p, &corpus);
     let mut calls = 0u64;
     for pkg in &pkgs {
-        guarded(ctx, "sign", b"mutated-package", || frost_core::round2::sign(pkg, &nonces, &kp).is_ok());
+        guarded(ctx, "sign", b"mutated-package", || C::api_sign(pkg, &nonces, &kp).is_ok());
         for pkp in pkps.iter().take(8) {
             for ss in sshares.iter().take(4) {
                 let mut sh = w.sess.shares.clone();
@@ -836,26 +836,26 @@ fn consume<C: Suite>(ctx: &mut Ctx) {
         }
     }
     for pkp in &pkps {
-        guarded(ctx, "aggregate", b"mutated-pkp", || frost_core::aggregate(&w.sess.pkg, &w.sess.shares, pkp).is_ok());
-        guarded(ctx, "repair_share_part3", b"mutated-pkp", || repairable::repair_share_part3::<C>(&[], me, pkp).is_ok());
+        guarded(ctx, "aggregate", b"mutated-pkp", || C::api_aggregate(&w.sess.pkg, &w.sess.shares, pkp).is_ok());
+        guarded(ctx, "repair_share_part3", b"mutated-pkp", || C::api_repair_part3(&[], me, pkp).is_ok());
         let mut rng = ctx.rng("consume-refresh");
-        guarded(ctx, "compute_refreshing_shares", b"mutated-pkp", || refresh::compute_refreshing_shares::<C, _>(pkp.clone(), &w.grp.ids, &mut rng).is_ok());
+        guarded(ctx, "compute_refreshing_shares", b"mutated-pkp", || C::api_compute_refreshing_shares(pkp.clone(), &w.grp.ids, &mut rng).is_ok());
         calls += 3;
     }
     for sh in &shares {
         guarded(ctx, "KeyPackage::try_from", b"mutated-share", || KeyPackage::<C>::try_from(sh.clone()).is_ok());
-        guarded(ctx, "refresh_share", b"mutated-share", || refresh::refresh_share::<C>(sh.clone(), &kp).is_ok());
+        guarded(ctx, "refresh_share", b"mutated-share", || C::api_refresh_share(sh.clone(), &kp).is_ok());
         calls += 2;
     }
     let (r1, r2) = dkg_inbox(&w.run, &me);
     for pk in &r1s {
         let mut m = r1.clone();
         m.insert(sender, pk.clone());
-        guarded(ctx, "dkg::part2", b"mutated-r1", || dkg::part2::<C>(w.run.r1_secret[&me].clone(), &m).is_ok());
+        guarded(ctx, "dkg::part2", b"mutated-r1", || C::api_dkg_part2(w.run.r1_secret[&me].clone(), &m).is_ok());
         for pk2 in r2s.iter().take(6) {
             let mut m2 = r2.clone();
             m2.insert(sender, pk2.clone());
-            guarded(ctx, "dkg::part3", b"mutated-r1+r2", || dkg::part3::<C>(&w.run.r2_secret[&me], &m, &m2).is_ok());
+            guarded(ctx, "dkg::part3", b"mutated-r1+r2", || C::api_dkg_part3(&w.run.r2_secret[&me], &m, &m2).is_ok());
             calls += 1;
         }
         calls += 1;
